@@ -298,7 +298,8 @@ Proof.
     + left. simpl. apply writes_inside_root_p; [exact He | apply refuse_false_checked; exact R].
   - destruct fr as [p| |]; [| left; reflexivity | left; reflexivity].
     destruct (refuse_location true p) eqn:R.
-    + right. unfold step, step_v. rewrite R. destruct (fget (fs s) src); reflexivity.
+    + right. unfold step, step_v. rewrite R.
+      destruct (held_any s ids); destruct (fget (fs s) src); reflexivity.
     + left. simpl. apply writes_inside_root_p; [exact He | apply refuse_false_checked; exact R].
   - left. exact Hz.
 Qed.
@@ -306,7 +307,7 @@ Qed.
 Fixpoint guarded2 (s : state) (h : list op) : bool :=
   match h with
   | [] => true
-  | x :: r => sharing_visible s && negb (reingest s x) && ext_ok x && zip_inside x && put_coherent x
+  | x :: r => sharing_visible s && ext_ok x && zip_inside x && put_coherent x
               && live_trash_disjoint s && guarded2 (fst (step s x)) r
   end.
 
@@ -322,13 +323,13 @@ Proof.
 Qed.
 
 Lemma step_deletes_unreferenced2_p : forall s x l c,
-  sharing_visible s = true -> reingest s x = false -> ext_ok x = true -> zip_inside x = true -> put_coherent x = true ->
+  sharing_visible s = true -> ext_ok x = true -> zip_inside x = true -> put_coherent x = true ->
   live_trash_disjoint s = true ->
   touches_env s x l = false ->
   fget (fs s) l = Some c -> fget (fs (fst (step s x))) l = None ->
   referenced (fst (step s x)) l = false.
 Proof.
-  intros s x l c Hvis Hre He Hz Hpc Hdis Henv Hf Hd.
+  intros s x l c Hvis He Hz Hpc Hdis Henv Hf Hd.
   destruct (target_inside_or_noop_p s x He Hz) as [Hti | Hno].
   - apply (step_deletes_unreferenced_p s x l c); assumption.
   - rewrite Hno in Hd. rewrite Hf in Hd. discriminate.
@@ -359,6 +360,5 @@ Lemma delete_only_unreferenced2_p : forall h1 x h2 s l c,
 Proof.
   intros h1 x h2 s l c G Henv Hf Hd. apply guarded2_app in G. simpl in G.
   repeat (apply andb_true_iff in G; destruct G as [G ?]).
-  apply (step_deletes_unreferenced2_p _ x l c); try assumption.
-  apply negb_true_iff. assumption.
+  apply (step_deletes_unreferenced2_p _ x l c); assumption.
 Qed.
